@@ -68,6 +68,7 @@ fn main() {
             std::process::exit(if bad == 0 { 0 } else { 1 });
         }
         "dispatch" => fam_dispatch::run(&mut out, args.seed),
+        "c11big" => fam_gen::run_c11big(&mut out, &mut rng, only, !args.extra.iter().any(|x| x == "--no-giant"), !args.extra.iter().any(|x| x == "--only-giant")),
         "agg" => fam_gen::run_agg(&mut out, &mut rng, args.thorough, only),
         "c02" => fam_dist::run_c02(&mut out, &mut rng, args.thorough, only),
         "c08" => fam_dist::run_c08(&mut out, &mut rng, args.thorough, only),
